@@ -142,4 +142,409 @@ theorem mem_reverseCigarStr (cg : Str) (c : Char) (h : c ∈ reverseCigarStr cg)
   · exact ⟨p.1, h1, hc⟩
   · exact ⟨p.2, h2, hc⟩
 
+/-! ## the merge loop of `to_stable`: every output interval with its run of steps -/
+open Gaftools.Proofs.Unstable
+
+def toSeg (s : RSeg) : Seg := ⟨s.id, s.so, s.en⟩
+
+def asc (o : Bool) (g : List (Bool × RSeg)) : List RSeg := if o then g.map (·.2) else (g.map (·.2)).reverse
+
+structure Grp (segs : List RSeg) (x : OIv) (g : List (Bool × RSeg)) : Prop where
+  mem : ∀ q ∈ g, q.1 = x.2 ∧ q.2 ∈ segs ∧ q.2.sn = x.1.contig
+  chain : Chain ((asc x.2 g).map toSeg) x.1.s x.1.e
+
+theorem chain_snoc {l : List Seg} {a b : Int} (h : Chain l a b) (x : Seg) (hx : x.so < x.en) (hb : x.so = b) :
+    Chain (l ++ [x]) a x.en := by
+  induction h with
+  | single y hy =>
+    have : Chain [x] y.en x.en := hb ▸ Chain.single x hx
+    exact Chain.cons y [x] x.en hy this
+  | cons y rest b hy hr ih =>
+    exact Chain.cons y (rest ++ [x]) x.en hy (ih hb)
+
+theorem seg_pos (segs : List RSeg) (hv : ValidRGFA segs) (s : RSeg) (hs : s ∈ segs) : s.so < s.en := by
+  have := List.length_pos_iff.mpr (hv.pos s hs).2
+  simp only [RSeg.en]; omega
+
+theorem grp_single (segs : List RSeg) (hv : ValidRGFA segs) (q : Bool × RSeg) (hq : q.2 ∈ segs) :
+    Grp segs (ivOf q) [q] := by
+  constructor
+  · intro q' hq'
+    rw [List.mem_singleton] at hq'; subst hq'
+    exact ⟨rfl, hq, rfl⟩
+  · have : (asc (ivOf q).2 [q]).map toSeg = [toSeg q.2] := by
+      unfold asc; cases (ivOf q).2 <;> rfl
+    rw [this]
+    exact Chain.single (toSeg q.2) (seg_pos segs hv q.2 hq)
+
+theorem grp_merge (segs : List RSeg) (hv : ValidRGFA segs) (cur : OIv) (g : List (Bool × RSeg)) (hg : Grp segs cur g)
+    (q : Bool × RSeg) (hq : q.2 ∈ segs) (m : OIv)
+    (hm : mergeNodes cur.1 (ivOf q).1 cur.2 q.1 = some m) : Grp segs m (g ++ [q]) := by
+  obtain ⟨n1, o1⟩ := cur
+  obtain ⟨hmem, hch⟩ := hg
+  simp only at hmem hch hm
+  unfold mergeNodes at hm
+  split at hm; · simp at hm
+  split at hm; · simp at hm
+  split at hm; · simp at hm
+  rename_i hc hf hr
+  have hcontig : n1.contig = q.2.sn := by
+    by_cases h : n1.contig = q.2.sn; exact h; exact absurd (Or.inl h) hc
+  have ho : o1 = q.1 := by
+    by_cases h : o1 = q.1; exact h; exact absurd (Or.inr h) hc
+  have hpos := seg_pos segs hv q.2 hq
+  cases o1 with
+  | false =>
+    have hse : n1.s = q.2.en := by simpa [ivOf] using hr
+    simp only [if_true] at hm
+    injection hm with hm
+    subst hm
+    constructor
+    · intro q' hq'
+      rcases List.mem_append.1 hq' with h | h
+      · exact hmem q' h
+      · rw [List.mem_singleton] at h; subst h
+        exact ⟨ho.symm, hq, hcontig.symm⟩
+    · have e : (asc false (g ++ [q])).map toSeg = toSeg q.2 :: (asc false g).map toSeg := by
+        simp [asc]
+      simp only
+      rw [e]
+      have hch' : Chain ((asc false g).map toSeg) (toSeg q.2).en n1.e := by
+        have : (toSeg q.2).en = n1.s := hse.symm
+        rw [this]; exact hch
+      exact Chain.cons (toSeg q.2) _ n1.e hpos hch'
+  | true =>
+    have hes : n1.e = q.2.so := by simpa [ivOf] using hf
+    simp only [Bool.true_eq_false, if_false] at hm
+    injection hm with hm
+    subst hm
+    constructor
+    · intro q' hq'
+      rcases List.mem_append.1 hq' with h | h
+      · exact hmem q' h
+      · rw [List.mem_singleton] at h; subst h
+        exact ⟨ho.symm, hq, hcontig.symm⟩
+    · have e : (asc true (g ++ [q])).map toSeg = (asc true g).map toSeg ++ [toSeg q.2] := by
+        simp [asc]
+      simp only
+      rw [e]
+      exact chain_snoc hch (toSeg q.2) hpos hes.symm
+
+theorem mergeGo_groups (segs : List RSeg) (hv : ValidRGFA segs) :
+    ∀ (rest : List (Bool × RSeg)) (cur : OIv) (g : List (Bool × RSeg)), Grp segs cur g → (∀ q ∈ rest, q.2 ∈ segs) →
+    ∃ xgs : List (OIv × List (Bool × RSeg)), xgs.map (·.1) = mergeGo cur (rest.map ivOf) ∧
+      (∀ xg ∈ xgs, Grp segs xg.1 xg.2) ∧ (xgs.map (·.2)).flatten = g ++ rest := by
+  intro rest
+  induction rest with
+  | nil =>
+    intro cur g hg _
+    exact ⟨[(cur, g)], rfl, by simpa using hg, by simp⟩
+  | cons q rest ih =>
+    intro cur g hg hrest
+    have hq := hrest q (by simp)
+    have hrest' : ∀ q ∈ rest, q.2 ∈ segs := fun y hy => hrest y (by simp [hy])
+    rw [List.map_cons, mergeGo]
+    cases hm : mergeNodes cur.1 (ivOf q).1 cur.2 (ivOf q).2 with
+    | some m =>
+      obtain ⟨xgs, h1, h2, h3⟩ := ih m (g ++ [q]) (grp_merge segs hv cur g hg q hq m hm) hrest'
+      exact ⟨xgs, h1, h2, by rw [h3]; simp⟩
+    | none =>
+      obtain ⟨xgs, h1, h2, h3⟩ := ih (ivOf q) [q] (grp_single segs hv q hq) hrest'
+      refine ⟨(cur, g) :: xgs, by simp [h1], ?_, by simp [h3]⟩
+      intro xg hxg
+      rcases List.mem_cons.1 hxg with rfl | h
+      · exact hg
+      · exact h2 xg h
+
+/-! ## reading the intervals back -/
+
+theorem chain_inv {l : List Seg} {a b : Int} (h : Chain l a b) :
+    ∃ x t, l = x :: t ∧ x.so = a ∧ x.so < x.en ∧ ((t = [] ∧ x.en = b) ∨ Chain t x.en b) := by
+  cases h with
+  | single x hx => exact ⟨x, [], rfl, rfl, hx, Or.inl ⟨rfl, rfl⟩⟩
+  | cons x rest b hx hr => exact ⟨x, rest, rfl, rfl, hx, Or.inr hr⟩
+
+theorem chain_unique {iv : List Seg} (hsd : SortedDisjoint iv) :
+    ∀ (l1 l2 : List Seg) (a b : Int), Chain l1 a b → Chain l2 a b → (∀ x ∈ l1, x ∈ iv) → (∀ x ∈ l2, x ∈ iv) → l1 = l2 := by
+  intro l1
+  induction l1 with
+  | nil =>
+    intro l2 a b h1
+    obtain ⟨x, t, h, _⟩ := chain_inv h1
+    simp at h
+  | cons x t ih =>
+    intro l2 a b h1 h2 hm1 hm2
+    obtain ⟨x', t', he, hxa, hx, hc1⟩ := chain_inv h1
+    injection he with he1 he2
+    subst he1; subst he2
+    obtain ⟨y, u, rfl, hya, hy, hc2⟩ := chain_inv h2
+    have hxy : x = y := cover_unique hsd (hm1 x (by simp)) (hm2 y (by simp)) a ⟨by omega, by omega⟩ ⟨by omega, by omega⟩
+    subst hxy
+    rcases hc1 with ⟨ht, hb1⟩ | hc1
+    · rcases hc2 with ⟨hu, _⟩ | hc2
+      · rw [ht, hu]
+      · have := hc2.lt; omega
+    · rcases hc2 with ⟨hu, hb2⟩ | hc2
+      · have := hc1.lt; omega
+      · rw [ih u x.en b hc1 hc2 (fun z hz => hm1 z (by simp [hz])) (fun z hz => hm2 z (by simp [hz]))]
+
+theorem chain_getLast {l : List Seg} {a b : Int} (h : Chain l a b) : ∃ z, l.getLast? = some z ∧ z.en = b ∧ z.so < z.en := by
+  induction h with
+  | single x hx => exact ⟨x, rfl, rfl, hx⟩
+  | cons x rest b _ hr ih =>
+    obtain ⟨z, hz, hzb⟩ := ih
+    obtain ⟨y, t, hyt, _⟩ := hr.head
+    subst hyt
+    exact ⟨z, by rw [List.getLast?_cons_cons]; exact hz, hzb⟩
+
+/-- the ids of a run, put back in walk order with the orientation, are the steps of the run -/
+theorem asc_steps (o : Bool) (g : List (Bool × RSeg)) (hg : ∀ q ∈ g, q.1 = o) :
+    (if o then ((asc o g).map toSeg).map (·.id) else (((asc o g).map toSeg).map (·.id)).reverse).map (fun i => (o, i))
+      = stepsOf g := by
+  have hcongr : g.map (fun q => (o, q.2.id)) = stepsOf g := by
+    unfold stepsOf
+    apply List.map_congr_left
+    intro q hq
+    rw [hg q hq]
+  cases o with
+  | true =>
+    rw [← hcongr]
+    simp [asc, toSeg, List.map_map, Function.comp_def]
+  | false =>
+    rw [← hcongr]
+    simp [asc, toSeg, List.map_map, Function.comp_def, List.map_reverse]
+
+theorem run_mem_refOf (segs : List RSeg) (x : OIv) (g : List (Bool × RSeg)) (hg : Grp segs x g) :
+    ∀ sg ∈ (asc x.2 g).map toSeg, sg ∈ refOf segs x.1.contig := by
+  intro sg hsg
+  obtain ⟨s, hs, rfl⟩ := List.mem_map.1 hsg
+  have hs' : s ∈ g.map (·.2) := by
+    unfold asc at hs
+    split at hs
+    · exact hs
+    · exact List.mem_reverse.1 hs
+  obtain ⟨q, hq, rfl⟩ := List.mem_map.1 hs'
+  obtain ⟨_, h2, h3⟩ := hg.mem q hq
+  exact (C03.mem_refOf segs _ _).2 ⟨q.2, h2, h3, rfl⟩
+
+/-- the search for a query inside the interval of a group that touches the first and the last node of the run selects
+    exactly the run -/
+theorem grp_search (segs : List RSeg) (hv : ValidRGFA segs) (x : OIv) (g : List (Bool × RSeg)) (hg : Grp segs x g)
+    (qs qe : Int) (hq : qs < qe) (h1 : x.1.s ≤ qs) (h2 : qe ≤ x.1.e)
+    (hfirst : ∀ f, ((asc x.2 g).map toSeg).head? = some f → qs < f.en)
+    (hlast : ∀ z, ((asc x.2 g).map toSeg).getLast? = some z → z.so < qe) :
+    ∃ r, searchIv (refOf segs x.1.contig) qs qe ((refOf segs x.1.contig).length + 2) 0 (refOf segs x.1.contig).length = some r ∧
+      (window (refOf segs x.1.contig) r).filter (fun sg => overlapCase sg qs qe ≠ 0) = (asc x.2 g).map toSeg := by
+  have hsd := C03.refOf_sortedDisjoint segs hv x.1.contig
+  have hrch := hg.chain
+  have hrmem' := run_mem_refOf segs x g hg
+  have hcov : ∀ p, qs ≤ p → p < qe → ∃ sg ∈ refOf segs x.1.contig, sg.so ≤ p ∧ p < sg.en := by
+    intro p hp1 hp2
+    obtain ⟨sg, hsg, h⟩ := hrch.cover p (by omega) (by omega)
+    exact ⟨sg, hrmem' sg hsg, h⟩
+  obtain ⟨r, a, b, rs, hr, hsel, hch, ha, hbq, -, -, -, -⟩ := item_core segs hv x.1.contig qs qe hq hcov
+  have hmemf : ∀ sg ∈ (refOf segs x.1.contig).filter (fun sg => overlaps sg qs qe),
+      sg ∈ refOf segs x.1.contig ∧ sg.so < qe ∧ qs < sg.en := by
+    intro sg hsg
+    obtain ⟨h1, h2⟩ := List.mem_filter.1 hsg
+    rw [Proofs.Search.overlaps_iff] at h2
+    exact ⟨h1, h2⟩
+  have haeq : a = x.1.s := by
+    obtain ⟨h, t, hov, hha, _⟩ := hch.head
+    obtain ⟨h', t', hov', hha', hlt'⟩ := hrch.head
+    have hm := hmemf h (by rw [hov]; simp)
+    have hm' := hrmem' h' (by rw [hov']; simp)
+    have hf := hfirst h' (by rw [hov']; rfl)
+    have := cover_unique hsd hm.1 hm' qs ⟨by omega, hm.2.2⟩ ⟨by omega, hf⟩
+    rw [this] at hha
+    omega
+  have hbeq : b = x.1.e := by
+    obtain ⟨z, hz, hzb, _⟩ := hch.last
+    obtain ⟨z', hz', hzb', hlt'⟩ := chain_getLast hrch
+    have hm := hmemf z hz
+    have hm' := hrmem' z' (List.mem_of_getLast? hz')
+    have hl := hlast z' hz'
+    have := cover_unique hsd hm.1 hm' (qe - 1) ⟨by omega, by omega⟩ ⟨by omega, by omega⟩
+    rw [this] at hzb
+    omega
+  subst haeq; subst hbeq
+  refine ⟨r, hr, ?_⟩
+  rw [hsel]
+  exact chain_unique hsd _ _ _ _ hch hrch (fun sg h => (hmemf sg h).1) hrmem'
+
+/-- one stable interval of the merge loop gives back exactly its run of steps -/
+theorem grp_item (segs : List RSeg) (hv : ValidRGFA segs) (x : OIv) (g : List (Bool × RSeg)) (hg : Grp segs x g)
+    (sp : Bool) (ps pe : Int) (st : USt) :
+    ∃ st', itemStep (refOf segs) sp ps pe st (toItem x) = some st' ∧ st'.path = st.path ++ stepsOf g ∧ st'.split = true := by
+  have hrch := hg.chain
+  obtain ⟨r, hr, hsel⟩ := grp_search segs hv x g hg x.1.s x.1.e hrch.lt (by omega) (by omega)
+    (by
+      intro f hf
+      obtain ⟨h', t', hov', hha', hlt'⟩ := hrch.head
+      rw [hov'] at hf
+      injection hf with hf
+      subst hf; omega)
+    (by
+      intro z hz
+      obtain ⟨z', hz', hzb', hlt'⟩ := chain_getLast hrch
+      rw [hz'] at hz
+      injection hz with hz
+      subst hz; omega)
+  obtain ⟨ns, nt, hstep⟩ := itemStep_iv (refOf segs) sp ps pe st x.2 x.1.contig x.1.s x.1.e r hr
+  refine ⟨_, hstep, ?_, rfl⟩
+  simp only
+  rw [scanWindow_ids, hsel, asc_steps x.2 g (fun q hq => (hg.mem q hq).1)]
+
+/-- the whole loop over the intervals written by the merge loop -/
+theorem fold_groups (segs : List RSeg) (hv : ValidRGFA segs) (xgs : List (OIv × List (Bool × RSeg)))
+    (hx : ∀ xg ∈ xgs, Grp segs xg.1 xg.2) (sp : Bool) (ps pe : Int) :
+    ∀ st : USt, ∃ st', ((xgs.map (·.1)).map toItem).foldlM (itemStep (refOf segs) sp ps pe) st = some st' ∧
+      st'.path = st.path ++ stepsOf (xgs.map (·.2)).flatten ∧ (st.split = true ∨ xgs ≠ [] → st'.split = true) := by
+  induction xgs with
+  | nil =>
+    intro st
+    refine ⟨st, rfl, by simp [stepsOf], ?_⟩
+    rintro (h | h)
+    · exact h
+    · exact absurd rfl h
+  | cons xg xgs ih =>
+    intro st
+    obtain ⟨st1, hst1, hp1, hs1⟩ := grp_item segs hv xg.1 xg.2 (hx xg (by simp)) sp ps pe st
+    obtain ⟨st2, hst2, hp2, hs2⟩ := ih (fun y hy => hx y (by simp [hy])) st1
+    refine ⟨st2, ?_, ?_, fun _ => hs2 (Or.inl hs1)⟩
+    · rw [List.map_cons, List.map_cons, List.foldlM_cons, hst1]
+      exact hst2
+    · rw [hp2, hp1]
+      simp [stepsOf]
+
+theorem grp_len (segs : List RSeg) (x : OIv) (g : List (Bool × RSeg)) (hg : Grp segs x g) : lenOf g = x.1.e - x.1.s := by
+  rw [← hg.chain.sum]
+  unfold lenOf asc
+  have hf : ((fun sg : Seg => sg.en - sg.so) ∘ toSeg) = fun s => (s.seq.length : Int) := by
+    funext s; simp only [Function.comp, toSeg, RSeg.en]; omega
+  split
+  · rw [List.map_map, List.map_map, hf]; rfl
+  · rw [List.map_map, hf, List.map_reverse, List.sum_reverse, List.map_map]; rfl
+
+theorem steps_nodes (segs : List RSeg) (steps : List (Bool × String))
+    (hk : ∀ st ∈ steps, (findSeg segs st.2).isSome) :
+    ∃ l : List (Bool × RSeg), (∀ p ∈ l, p.2 ∈ segs) ∧ stepsOf l = steps := by
+  induction steps with
+  | nil => exact ⟨[], by simp, rfl⟩
+  | cons st steps ih =>
+    obtain ⟨l, hl1, hl2⟩ := ih (fun y hy => hk y (by simp [hy]))
+    have hst := hk st (by simp)
+    cases hf : findSeg segs st.2 with
+    | none => simp [hf] at hst
+    | some s =>
+      have hid : s.id = st.2 := by
+        have := List.find?_some hf
+        simpa using this
+      refine ⟨(st.1, s) :: l, ?_, ?_⟩
+      · intro p hp
+        rcases List.mem_cons.1 hp with hp | hp
+        · subst hp
+          exact List.mem_of_find?_eq_some hf
+        · exact hl1 p hp
+      · unfold stepsOf at hl2 ⊢
+        rw [List.map_cons, hl2]
+        simp only [hid]
+
+theorem mapM_nodeTbl (segs : List RSeg) (hv : ValidRGFA segs) (l : List (Bool × RSeg)) (hl : ∀ p ∈ l, p.2 ∈ segs) :
+    (stepsOf l).mapM (fun s => (nodeTbl segs s.2).map (fun n => (n, s.1))) = some (l.map ivOf) := by
+  induction l with
+  | nil => rfl
+  | cons p l ih =>
+    unfold stepsOf at ih ⊢
+    rw [List.map_cons, List.mapM_cons, ih (fun q hq => hl q (by simp [hq]))]
+    simp only [nodeTbl, findSeg_of_mem segs hv p.2 (hl p (by simp))]
+    rfl
+
+/-! ## the collapsed record (bare reference contig name) -/
+
+/-- a bare contig name whose query touches the first and the last node of the (single) run gives back the run -/
+theorem bare_general (segs : List RSeg) (hv : ValidRGFA segs) (n : SNode) (ob : Bool) (g : List (Bool × RSeg))
+    (hg : Grp segs (n, ob) g) (qs qe : Int) (hq : qs < qe) (h1 : n.s ≤ qs) (h2 : qe ≤ n.e)
+    (hfirst : ∀ f, ((asc ob g).map toSeg).head? = some f → qs < f.en)
+    (hlast : ∀ z, ((asc ob g).map toSeg).getLast? = some z → z.so < qe) (total : Int) :
+    toUnstable (refOf segs) ob [.bare n.contig] total qs qe = some (stepsOf g,
+      if ob then ⟨true, n.e - n.s, qs - n.s, qs - n.s + (qe - qs), false⟩
+      else ⟨true, n.e - n.s, (n.e - n.s) - (qs - n.s) - (qe - qs), (n.e - n.s) - (qs - n.s), true⟩) := by
+  obtain ⟨r, hr, hsel⟩ := grp_search segs hv (n, ob) g hg qs qe hq h1 h2 hfirst hlast
+  have hrch : Chain ((asc ob g).map toSeg) n.s n.e := hg.chain
+  obtain ⟨h, t, hov, hha, hlt⟩ := hrch.head
+  have hf := hfirst h (by rw [hov]; rfl)
+  have hscan := scanWindow_bare (window (refOf segs n.contig) r) qs qe h t (by rw [hsel, hov]) (by omega) hf
+  rw [← hov, hrch.sum, hha] at hscan
+  have hstep := itemStep_bare (refOf segs) ob qs qe n.contig r hr _ _ _ hscan
+  rw [asc_steps ob g (fun q hq => (hg.mem q hq).1)] at hstep
+  have hfold : List.foldlM (itemStep (refOf segs) ob qs qe) ⟨[], none, -1, 0, false⟩ [SItem.bare n.contig]
+      = some { path := stepsOf g, orient := some ob, newStart := qs - n.s, newTotal := n.e - n.s, split := false } := by
+    rw [List.foldlM_cons, hstep]; rfl
+  unfold toUnstable
+  rw [hfold]
+  cases ob <;> rfl
+
+theorem head_asc_true (g : List (Bool × RSeg)) : ((asc true g).map toSeg).head? = g.head?.map (fun p => toSeg p.2) := by
+  simp [asc, List.head?_map]; rfl
+theorem last_asc_true (g : List (Bool × RSeg)) : ((asc true g).map toSeg).getLast? = g.getLast?.map (fun p => toSeg p.2) := by
+  simp [asc, List.getLast?_map]; rfl
+theorem head_asc_false (g : List (Bool × RSeg)) : ((asc false g).map toSeg).head? = g.getLast?.map (fun p => toSeg p.2) := by
+  simp [asc, List.getLast?_map]; rfl
+theorem last_asc_false (g : List (Bool × RSeg)) : ((asc false g).map toSeg).getLast? = g.head?.map (fun p => toSeg p.2) := by
+  simp [asc, List.head?_map]; rfl
+
+/-- the collapsed record of `to_stable` (either strand) is read back to the canonical unstable record -/
+theorem bare_roundtrip (segs : List RSeg) (hv : ValidRGFA segs) (n : SNode) (ob : Bool) (g : List (Bool × RSeg))
+    (hg : Grp segs (n, ob) g) (plen ps pe : Int) (hb : 0 ≤ ps ∧ ps < pe ∧ pe ≤ plen) (hlen : lenOf g = plen)
+    (hF : ∀ p, g.head? = some p → ps < p.2.seq.length)
+    (hL : ∀ p, g.getLast? = some p → plen - p.2.seq.length < pe) (total : Int) :
+    toUnstable (refOf segs) ob [.bare n.contig] total (if ob then n.s + ps else n.s + plen - pe)
+        ((if ob then n.s + ps else n.s + plen - pe) + pe - ps)
+      = some (stepsOf g, ⟨true, plen, ps, pe, !ob⟩) := by
+  have hne : n.e - n.s = plen := by rw [← hlen, grp_len segs (n, ob) g hg]
+  have hrch : Chain ((asc ob g).map toSeg) n.s n.e := hg.chain
+  obtain ⟨h, t, hov, hha, hlt⟩ := hrch.head
+  obtain ⟨z, hz, hzb, hzlt⟩ := chain_getLast hrch
+  have hh : ((asc ob g).map toSeg).head? = some h := by rw [hov]; rfl
+  cases ob with
+  | true =>
+    simp only [if_true]
+    rw [bare_general segs hv n true g hg (n.s + ps) (n.s + ps + pe - ps) (by omega) (by omega) (by omega) ?_ ?_ total]
+    · simp only [if_true, Bool.not_true]
+      congr 3 <;> omega
+    · intro f hf
+      rw [hh] at hf; injection hf with hf; subst hf
+      rw [head_asc_true, Option.map_eq_some_iff] at hh
+      obtain ⟨p, hp, rfl⟩ := hh
+      have := hF p hp
+      simp only [toSeg, RSeg.en] at hha ⊢
+      omega
+    · intro z' hz'
+      rw [hz] at hz'; injection hz' with hz'; subst hz'
+      rw [last_asc_true, Option.map_eq_some_iff] at hz
+      obtain ⟨p, hp, rfl⟩ := hz
+      have := hL p hp
+      simp only [toSeg, RSeg.en] at hzb ⊢
+      omega
+  | false =>
+    simp only [Bool.false_eq_true, if_false]
+    rw [bare_general segs hv n false g hg (n.s + plen - pe) (n.s + plen - pe + pe - ps) (by omega) (by omega) (by omega) ?_ ?_ total]
+    · simp only [Bool.false_eq_true, if_false, Bool.not_false]
+      congr 3 <;> omega
+    · intro f hf
+      rw [hh] at hf; injection hf with hf; subst hf
+      rw [head_asc_false, Option.map_eq_some_iff] at hh
+      obtain ⟨p, hp, rfl⟩ := hh
+      have := hL p hp
+      simp only [toSeg, RSeg.en] at hha ⊢
+      omega
+    · intro z' hz'
+      rw [hz] at hz'; injection hz' with hz'; subst hz'
+      rw [last_asc_false, Option.map_eq_some_iff] at hz
+      obtain ⟨p, hp, rfl⟩ := hz
+      have := hF p hp
+      simp only [toSeg, RSeg.en] at hzb ⊢
+      omega
+
 end Gaftools.Proofs.Roundtrip
